@@ -63,6 +63,37 @@ def zhit_total():
             % (body, total))
 
 
+def fit_total():
+    """fit_circuit: one step per (method, weight) combination, announced as num_steps + 1"""
+    path = os.path.join(lib.SRC, "pyimpspec", "analysis", "fitting.py")
+    tree = ast.parse(open(path).read())
+    fn = next(n for n in ast.walk(tree) if isinstance(n, ast.FunctionDef) and n.name == "fit_circuit")
+    src = ast.unparse(fn)
+    need = ["num_steps: int = 0",
+            "if isinstance(method, str):\n        num_steps = len(_METHODS) if method == 'auto' else 1\n    elif isinstance(method, list):\n        num_steps = len(method)",
+            "if isinstance(weight, str):\n        num_steps *= len(_WEIGHT_FUNCTIONS) if weight == 'auto' else 1\n    elif isinstance(weight, list):\n        num_steps *= len(weight)",
+            "for method in methods:\n            for weight in weights:\n                method_weight_combos.append((method, weight))",
+            "for method, weight in method_weight_combos)"]
+    for n_ in need:
+        if n_ not in src:
+            raise Reject("fit_circuit: expected `%s`" % n_.replace("\n", " / "))
+    if src.count("num_steps") != 6:
+        raise Reject("fit_circuit: num_steps is used in an unexpected place (%d occurrences)" % src.count("num_steps"))
+    if src.count("fits.append(res)\n") != 2 or src.count("prog.increment()") != 2:
+        raise Reject("fit_circuit: expected exactly one increment per collected fit in each of the two loops")
+    w = [n for n in ast.walk(fn) if isinstance(n, ast.With) and getattr(n.items[0].context_expr.func, "id", "") == "Progress"]
+    if len(w) != 1:
+        raise Reject("fit_circuit: Progress context not found")
+    kw = {k.arg: k.value for k in w[0].items[0].context_expr.keywords}
+    names = set()
+    total = expr(kw["total"], names)
+    if names != {"num_steps"}:
+        raise Reject("fit_circuit: unexpected total")
+    return ("(* fit_circuit: num_steps = (number of methods) * (number of weights); one increment per collected fit *)\n"
+            "Definition fit_total (num_methods num_weights : Z) : Z :=\n  let num_steps := (num_methods * num_weights)%%Z in (%s)%%Z.\n"
+            "Definition fit_increments (num_methods num_weights : Z) : Z := (num_methods * num_weights)%%Z.\n" % total)
+
+
 def generate():
-    out = ["(* GENERATED by tools/tr_steps.py from /repo — do not edit *)", "From Coq Require Import ZArith.", "Open Scope Z_scope.", "", zhit_total()]
+    out = ["(* GENERATED by tools/tr_steps.py from /repo — do not edit *)", "From Coq Require Import ZArith.", "Open Scope Z_scope.", "", zhit_total(), fit_total()]
     lib._write_if_changed(os.path.join(lib.COQ, "gen", "Steps_gen.v"), "\n".join(out) + "\n")
